@@ -7,6 +7,7 @@ import (
 	"bytes"
 	"crypto/tls"
 	"encoding/binary"
+	"net"
 	"slices"
 
 	dtlsconfig "github.com/pion/dtls/v3/internal/config"
@@ -78,4 +79,15 @@ func CipherSuiteIDs(cipherSuites []dtlsconfig.CipherSuite) []uint16 {
 	}
 
 	return ids
+}
+
+// SNIServerName returns the name to offer in the server_name extension. An IP address
+// literal must not be sent there (RFC 6066, Section 3), but it remains the name the
+// peer certificate is verified against.
+func SNIServerName(serverName string) string {
+	if net.ParseIP(serverName) != nil {
+		return ""
+	}
+
+	return serverName
 }
